@@ -43,7 +43,17 @@ RULE = ("random edit histories (length 5..40) over a store of live BayesianNetwo
         "torch histories (tolerance 1e-5: pgmpy's torch constructor rounds through float32); J variants = inplace, n_states "
         "forms, weight / latent forms, ebunch / latents forms (a generator ebunch is not offered: networkx swallows a rejected "
         "edge and returns an empty graph); K rejected calls = multi stream + per-element model; L orders = ordered comparison "
-        "of nodes / adjacency / CPD list, hash seeds; M budget = tools/check.py.  Non-trivial: >=1 edge or CPD existed at some "
+        "of nodes / adjacency / CPD list, hash seeds; M budget = tools/check.py; N equal-but-not-identical arguments = every name handed to pgmpy is rebuilt at run time "
+        "(tuples re-created, strings re-joined, ints above 256 such as 257 / 65537 / 2^24+1 / 10^12), remove_cpds with the "
+        "model's own object as well as with equal copies; O containers = node / edge lists as list, tuple, generator, iter, "
+        "map, dict keys view, set (iteration order fixed before the model sees it), numpy array and pandas Index (the two "
+        "last only for models whose names are all str/int: numpy scalars do not compare cleanly with tuple names), bare name "
+        "for do/remove_node; weights stay lists (pgmpy takes len() of them); P sizes = chains / trees on 9, 12, 16, 17, "
+        "32, 33 nodes with complete CPDs and a variable with 257 states (integer codes above 2^24 do not occur in this API); "
+        "Q = tables typed with three decimals (sums within 0.0015 of 1, valid for check_model) and off by 0.02-0.05 (invalid), "
+        "queries only compared for exactly normalised tables; R = optional features are drawn independently per operation "
+        "(weights x latent x container form x backend x name style x buffer), None as a node is probed at the end of "
+        "every history.  Non-trivial: >=1 edge or CPD existed at some "
         "step; distinct = distinct canonical history")
 TRUSTED_BASE = ["networkx DiGraph/Graph dict-of-dict storage (modelled as insertion-ordered node and edge lists)",
                 "numpy einsum / division (CPD marginalisation modelled on exact rationals, compared at 1e-9)",
@@ -69,6 +79,18 @@ def rand_cols(rng, vcard, ncol, mode):
         else:
             col = common.rand_column(rng, vcard)
         cols.append(col)
+    if mode in ("decimal", "decimal-off"):
+        # typed with three decimals: column sums within 0.0015 of 1 but not exactly 1 (valid for check_model);
+        # "decimal-off": one column off by 0.02 .. 0.05 (invalid)
+        out = []
+        for col in cols:
+            d = [Fraction(round(float(x) * 1000), 1000) for x in col]
+            if sum(d) == 1 and vcard > 1:
+                d[0] += Fraction(1, 1000)
+            out.append([Fraction(float(x)) for x in d])       # the exact rationals of the decimal floats
+        if mode == "decimal-off":
+            out[0] = [x + Fraction(float(rng.choice([0.02, 0.03, 0.05]))) / 1 if r == 0 else x for r, x in enumerate(out[0])]
+        cols = out
     if mode in ("scaled", "mixed-scale"):
         # unnormalised tables of extreme magnitude (exact powers of two: the floats are exact): one factor for the
         # whole table, or one per column (marginalisation then adds columns of very different size)
@@ -112,7 +134,7 @@ def gen_cpd(rng, sh, card, N, how=None):
     ncol = 1
     for k in ecard:
         ncol *= k
-    mode = rng.choice(["norm"] * 6 + ["unnorm", "uniform", "uniform", "scaled", "mixed-scale"])
+    mode = rng.choice(["norm"] * 6 + ["unnorm", "uniform", "uniform", "scaled", "mixed-scale", "decimal", "decimal", "decimal-off"])
     cols = rand_cols(rng, vcard, ncol, mode)
     return {"v": v, "vcard": vcard, "ev": pa, "ecard": ecard,
             "cols": [[[x.numerator, x.denominator] for x in col] for col in cols]}
@@ -120,6 +142,7 @@ def gen_cpd(rng, sh, card, N, how=None):
 
 # (a generator is not offered: networkx swallows the exception of a rejected edge for iterators and returns an
 # EMPTY graph; pgmpy documents "an edge list or any NetworkX graph object")
+NONE_LATENT = False
 EBFORMS = ["tuples", "lists", "tuple-of-tuples", "digraph"]
 LATFORMS = ["set", "set", "list", "omit"]
 
@@ -250,6 +273,7 @@ def gen_bn_history(rng, length):
             xs = [[rng.randrange(N), rng.random() < 0.25] for _ in range(k)]
             o = {"op": "add_nodes", "m": a, "xs": xs, "api": "one" if k == 1 and rng.random() < 0.7 else "many"}
             o.update(gen_weights(rng, k))
+            o["cform"] = rng.choice(CFORMS)
             if o["api"] == "many" and k > 0 and rng.random() < 0.08:
                 o["latshort"] = rng.randrange(k)        # latent list too short: IndexError half-way
             ops.append(o)
@@ -260,7 +284,7 @@ def gen_bn_history(rng, length):
             pool = sorted(sh["edges"]) if sh["edges"] and rng.random() < 0.8 else [(rng.randrange(N), rng.randrange(N))]
             k = 1 if api == "one" else rng.choice([0, 1, 2, 3])
             es = [list(rng.choice(pool)) for _ in range(k)]
-            ops.append({"op": "remove_edges", "m": a, "es": es, "api": api})
+            ops.append({"op": "remove_edges", "m": a, "es": es, "api": api, "cform": rng.choice(CFORMS)})
             if api == "clear_edges":
                 sh["edges"] = set()
             else:
@@ -275,6 +299,7 @@ def gen_bn_history(rng, length):
                 es.append([u, v])
             o = {"op": "add_edges", "m": a, "es": es, "api": "one" if k == 1 and rng.random() < 0.7 else "many"}
             o.update(gen_weights(rng, k))
+            o["cform"] = rng.choice(CFORMS)
             ops.append(o)
             if o.get("ws") and len(o["ws"]) != k and o["api"] == "many":
                 continue
@@ -285,7 +310,8 @@ def gen_bn_history(rng, length):
             k = rng.choice([0, 1, 1, 1, 1, 2])
             pool = sorted(sh["nodes"]) if sh["nodes"] and rng.random() < 0.85 else list(range(N))
             xs = [rng.choice(pool) for _ in range(k)]
-            ops.append({"op": "remove_nodes", "m": a, "xs": xs, "api": "one" if k == 1 and rng.random() < 0.7 else "many"})
+            ops.append({"op": "remove_nodes", "m": a, "xs": xs, "api": "one" if k == 1 and rng.random() < 0.7 else "many",
+                        "cform": rng.choice(CFORMS)})
             for x in xs:
                 sh["nodes"].discard(x)
                 sh["edges"] = {e for e in sh["edges"] if x not in e}
@@ -301,7 +327,7 @@ def gen_bn_history(rng, length):
                     for k in c["ecard"]:
                         ncol *= k
                     c["cols"] = [[[x.numerator, x.denominator] for x in col]
-                                 for col in rand_cols(rng, c["vcard"], ncol, "norm")]
+                                 for col in rand_cols(rng, c["vcard"], ncol, rng.choice(["norm", "norm", "decimal"]))]
                 rng.shuffle(cs)
             else:
                 cs = [gen_cpd(rng, sh, card, N) for _ in range(rng.choice([0, 1, 1, 1, 2, 3]))]
@@ -313,7 +339,8 @@ def gen_bn_history(rng, length):
                 # remove_cpds(obj) with CPD objects that are NOT the model's own objects: a copy of the pick-th
                 # CPD of the model (equal by value) or an unrelated fresh CPD (list.remove fall-back)
                 ops.append({"op": "remove_cpd_objs", "m": a,
-                            "cs": [{"pick": rng.randrange(8), "perturb": rng.choice([0, 0, 1e-10, 1e-3])} if rng.random() < 0.7
+                            "cs": [{"pick": rng.randrange(8), "perturb": rng.choice([0, 0, 1e-10, 1e-3]), "own": rng.random() < 0.3}
+                                   if rng.random() < 0.7
                                    else {"cpd": gen_cpd(rng, sh, card, N)}
                                    for _ in range(rng.choice([1, 1, 2]))]})
             else:
@@ -324,7 +351,7 @@ def gen_bn_history(rng, length):
             xs = [rng.choice(pool) for _ in range(k)]
             inplace = rng.random() < 0.5
             ops.append({"op": "do", "m": a, "xs": xs, "inplace": inplace,
-                        "api": "one" if k == 1 and rng.random() < 0.5 else "many"})
+                        "api": "one" if k == 1 and rng.random() < 0.5 else "many", "cform": rng.choice(CFORMS)})
             tgt = sh
             if not inplace and len(shadows) < 6:
                 new_shadow(sh["nodes"], sh["edges"])
@@ -362,6 +389,55 @@ def gen_bn_history(rng, length):
                 shadows[-1]["cpds"] = set(sh["nodes"])
             else:
                 sh["cpds"] = set(sh["nodes"])
+    return {"kind": "bn", "N": N, "ops": ops}
+
+
+def gen_chain_history(rng):
+    """mid-sized and threshold-sized models: chains / trees on 9..33 nodes (sizes around 8, 16, 32 and = 1 mod 8) with
+    a complete parameterisation, then a few edits; or a variable with 257 states"""
+    if rng.random() < 0.25:
+        N, card = 3, [257, 2, 2]
+        eb = [[0, 1], [1, 2]]
+    else:
+        N = rng.choice([9, 9, 12, 16, 17, 32, 33])
+        card = [rng.choice([1, 2, 2, 2, 3]) for _ in range(N)]
+        order = list(range(N))
+        rng.shuffle(order)
+        tree = rng.random() < 0.5
+        eb = [[order[rng.randrange(i) if tree else i - 1], order[i]] for i in range(1, N)]
+        for _ in range(rng.randint(0, 3)):
+            i, j = sorted(rng.sample(range(N), 2))
+            if [order[i], order[j]] not in eb and sum(1 for e in eb if e[1] == order[j]) < 2:
+                eb.append([order[i], order[j]])
+    sh = {"nodes": set(range(N)), "edges": {tuple(e) for e in eb}}
+    cs = []
+    for v in range(N):
+        c = gen_cpd(rng, {"nodes": {v}, "edges": {e for e in sh["edges"] if e[1] == v}}, card, N, "right")
+        ncol = 1
+        for k in c["ecard"]:
+            ncol *= k
+        c["vcard"] = card[v]
+        c["cols"] = [[[x.numerator, x.denominator] for x in col] for col in rand_cols(rng, card[v], ncol, rng.choice(["norm", "decimal"]))]
+        cs.append(c)
+    rng.shuffle(cs)
+    ops = [{"op": "new", "eb": eb, "lat": [], "ebform": rng.choice(EBFORMS), "latform": "omit"},
+           {"op": "add_cpds", "m": 0, "cs": cs, "buf": False}]
+    first, last = eb[0][0], eb[-1][1]
+    for _ in range(rng.randint(3, 6)):
+        r = rng.random()
+        x = rng.randrange(N)
+        if r < 0.25:
+            ops.append({"op": "remove_nodes", "m": 0, "xs": [x], "api": "one"})
+        elif r < 0.45:
+            ops.append({"op": "do", "m": 0, "xs": [x], "inplace": rng.random() < 0.5, "api": "many", "cform": rng.choice(CFORMS)})
+        elif r < 0.6:
+            ops.append({"op": "copy", "m": 0})
+        elif r < 0.8:
+            # closes a long cycle (rejected) or is a fresh forward edge
+            u, v = (last, first) if rng.random() < 0.6 else (rng.randrange(N), rng.randrange(N))
+            ops.append({"op": "add_edges", "m": 0, "es": [[u, v]], "api": "one"})
+        else:
+            ops.append({"op": "remove_edges", "m": 0, "es": [list(rng.choice(eb))], "api": "one"})
     return {"kind": "bn", "N": N, "ops": ops}
 
 
@@ -424,8 +500,15 @@ def cases(tier, seed):
             c["ops"] = [o for o in c["ops"][:9] if o["op"] != "random_cpds"]   # big tables: keep the exact model cheap
         c["style"] = rng.choice(["str", "int", "mixed", "tuple", "mixed", "substr"])
         c["nameseed"] = rng.randint(0, 10**9)
+        if not float32_safe(c):
+            c["ops"] = c["ops"][:14]      # tables of extreme magnitude make the exact model slow: keep these histories short
         if rng.random() < 0.15 and float32_safe(c):
             c["backend"] = "torch"
+        out.append(c)
+    for i in range(16 if tier == "quick" else 200):
+        c = gen_chain_history(rng)
+        c["style"] = rng.choice(["str", "int", "mixed", "tuple", "substr"])
+        c["nameseed"] = rng.randint(0, 10**9)
         out.append(c)
     for i in range(nd):
         out.append(gen_dbn_history(rng, rng.randint(3, 25)))
@@ -504,23 +587,48 @@ def renumber(ops, i):
 
 
 # ------------------------------------------------------------------ BN histories
+def rkey(x):
+    """key of a node name handed back by pgmpy (numpy scalars from array arguments compare equal to the plain value)"""
+    if hasattr(x, "item") and not isinstance(x, tuple):
+        x = x.item()
+    return repr(x)
+
+
+def fresh(x):
+    """an equal but NOT identical object: what a caller who rebuilds names at run time hands in"""
+    if isinstance(x, tuple):
+        return tuple([fresh(e) for e in x])
+    if isinstance(x, str):
+        return "".join(list(x)) if len(x) > 1 else x
+    if isinstance(x, int) and not isinstance(x, bool):
+        return int(str(x))
+    return x
+
+
+class FreshNames(list):
+    def __getitem__(self, i):
+        return fresh(list.__getitem__(self, i))
+
+
 def bn_names(case):
     rng = random.Random(case["nameseed"])
     style = case["style"]
     n = case["N"]
     if style == "str":
-        pool = ["A", "B", "C", "D", "E", "F", "G", "H", "I", "J"]
+        pool = ["A", "B", "C", "D", "E", "F", "G", "H", "I", "J"] + ["node%d" % i for i in range(30)]
     elif style == "int":
-        pool = list(range(0, 11))
+        # small ints are cached objects; ints above 256 are not (equal-but-not-identical arguments)
+        pool = [0, 1, 2, 3, 257, 1000, 65537, 2 ** 24 + 1, 2 ** 31, 10 ** 12, 4, 5] + [300 + i for i in range(30)]
     elif style == "tuple":
-        pool = [("v", i) for i in range(10)]
+        pool = [("v", i) for i in range(6)] + [("v", 1000 + i) for i in range(34)]
     elif style == "substr":
         # names that are substrings of one another, the empty string, a digit string next to the int
-        pool = ["x1", "x10", "x", "G", "G2", "G20", "1", 1, "", "x100"]
+        pool = ["x1", "x10", "x", "G", "G2", "G20", "1", 1, "", "x100"] + ["x2%d" % i for i in range(30)]
     else:
-        pool = ["x", 0, ("t", 1), "y", 7, "zz", ("u", 2), 3, ("t", 10), "x0"]
-    rng.shuffle(pool)
-    return pool[:n]
+        pool = ["x", 0, ("t", 1), "y", 7, "zz", ("u", 2), 3, ("t", 10), "x0"] + [("m", 500 + i) if i % 2 else "m%d" % i for i in range(30)]
+    head, tail = pool[:10], pool[10:]
+    rng.shuffle(head)
+    return FreshNames((head + tail)[:n])
 
 
 def frs(cols):
@@ -546,18 +654,18 @@ def make_cpd(c, names, bufs=None):
 
 def snap_real(m, idx):
     """canonical observable content of a real BayesianNetwork"""
-    nodes = [idx[repr(x)] for x in m.nodes()]
-    succ = {idx[repr(u)]: [idx[repr(v)] for v in m.successors(u)] for u in m.nodes()}
-    pred = {idx[repr(u)]: [idx[repr(v)] for v in m.predecessors(u)] for u in m.nodes()}
-    lat = sorted(idx[repr(x)] for x in m.latents)
+    nodes = [idx[rkey(x)] for x in m.nodes()]
+    succ = {idx[rkey(u)]: [idx[rkey(v)] for v in m.successors(u)] for u in m.nodes()}
+    pred = {idx[rkey(u)]: [idx[rkey(v)] for v in m.predecessors(u)] for u in m.nodes()}
+    lat = sorted(idx[rkey(x)] for x in m.latents)
     cpds = []
     for c in m.cpds:
         vals = c.get_values()
-        cpds.append((idx[repr(c.variable)], int(c.cardinality[0]), [idx[repr(v)] for v in c.variables[1:]],
+        cpds.append((idx[rkey(c.variable)], int(c.cardinality[0]), [idx[rkey(v)] for v in c.variables[1:]],
                      [int(k) for k in c.cardinality[1:]],
                      [[float(vals[r][j]) for r in range(vals.shape[0])] for j in range(vals.shape[1])]))
-    nw = {idx[repr(x)]: wenc(m.nodes[x].get("weight")) for x in m.nodes()}
-    ew = {"%d>%d" % (idx[repr(u)], idx[repr(v)]): wenc(m.edges[u, v].get("weight")) for u, v in m.edges()}
+    nw = {idx[rkey(x)]: wenc(m.nodes[x].get("weight")) for x in m.nodes()}
+    ew = {"%d>%d" % (idx[rkey(u)], idx[rkey(v)]): wenc(m.edges[u, v].get("weight")) for u, v in m.edges()}
     return nodes, succ, pred, lat, cpds, nw, ew
 
 
@@ -628,6 +736,57 @@ def exc_code(e):
     raise e
 
 
+CFORMS = ["list", "list", "tuple", "generator", "iter", "map", "dictkeys", "set", "nparray", "pdindex"]
+
+
+def contain(form, lst):
+    """the same elements in another documented container / one-shot iterator"""
+    if form == "tuple":
+        return tuple(lst)
+    if form == "generator":
+        return (x for x in list(lst))
+    if form == "iter":
+        return iter(list(lst))
+    if form == "map":
+        return map(lambda x: x, list(lst))
+    if form == "dictkeys" and len(set(map(repr, lst))) == len(lst):
+        return dict.fromkeys(lst).keys()
+    plain = all(isinstance(x, str) for x in lst) or all(isinstance(x, int) and abs(x) < 2 ** 62 for x in lst)
+    if form == "nparray" and lst and plain:
+        import numpy as np
+        return np.array(lst)
+    if form == "pdindex" and lst and plain:
+        import pandas as pd
+        return pd.Index(lst)
+    return list(lst)
+
+
+def materialise(o, names, idx):
+    """a set argument is iterated in the set's own order: fix that order before the model sees the operation"""
+    if o.get("cform") != "set":
+        return o
+    fld = "es" if "es" in o else "xs"
+    if o["op"] == "add_nodes" and (o.get("ws") or len({f for _, f in o["xs"]}) > 1 or "latshort" in o):
+        o["cform"] = "list"
+        return o
+    if o["op"] == "add_edges" and o.get("ws"):
+        o["cform"] = "list"
+        return o
+    if fld == "es":
+        st = {(names[u], names[v]) for u, v in o["es"]}
+        order = [[idx[rkey(u)], idx[rkey(v)]] for u, v in list(st)]
+    elif o["op"] == "add_nodes":
+        flag = o["xs"][0][1] if o["xs"] else False
+        st = {names[x] for x, _ in o["xs"]}
+        order = [[idx[rkey(x)], flag] for x in list(st)]
+    else:
+        st = {names[x] for x in o["xs"]}
+        order = [idx[rkey(x)] for x in list(st)]
+    o[fld] = order
+    o["_container"] = st
+    return o
+
+
 def hold(o, obj):
     """remember an argument container and a deep snapshot of it: the call must leave it as it was"""
     import copy
@@ -641,6 +800,15 @@ def apply_bn(o, M, names):
     from pgmpy.models import BayesianNetwork
     kind = o["op"]
     nm = lambda x: names[x]
+
+    def cont(o, lst):
+        if "_container" in o:
+            return hold(o, o["_container"])
+        form = o.get("cform", "list")
+        if form in ("nparray", "pdindex") and o.get("_style") not in ("str", "int", "substr"):
+            form = "tuple"      # numpy scalars do not compare cleanly with tuple names (array-valued ==)
+        c = contain(form, lst)
+        return hold(o, c) if isinstance(c, (list, tuple)) else c
     try:
         if kind in ("new", "new_from"):
             import networkx as nx
@@ -678,7 +846,7 @@ def apply_bn(o, M, names):
             elif o["api"] == "clear_edges":
                 m.clear_edges()
             else:
-                m.remove_edges_from(hold(o, [(nm(u), nm(v)) for u, v in o["es"]]))
+                m.remove_edges_from(cont(o, [(nm(u), nm(v)) for u, v in o["es"]]))
             return 0
         if kind == "add_nodes":
             if o["api"] == "one":
@@ -693,19 +861,19 @@ def apply_bn(o, M, names):
                 kw = {"weights": hold(o, list(o["ws"]))} if "ws" in o else {}
                 if isinstance(lat, list):
                     hold(o, lat)
-                m.add_nodes_from(hold(o, [nm(x) for x, _ in o["xs"]]), latent=lat, **kw)
+                m.add_nodes_from(cont(o, [nm(x) for x, _ in o["xs"]]), latent=lat, **kw)
         elif kind == "add_edges":
             if o["api"] == "one":
                 kw = {"weight": o["ws"][0]} if o.get("ws") else {}
                 m.add_edge(nm(o["es"][0][0]), nm(o["es"][0][1]), **kw)
             else:
                 kw = {"weights": hold(o, list(o["ws"]))} if "ws" in o else {}
-                m.add_edges_from(hold(o, [(nm(u), nm(v)) for u, v in o["es"]]), **kw)
+                m.add_edges_from(cont(o, [(nm(u), nm(v)) for u, v in o["es"]]), **kw)
         elif kind == "remove_nodes":
             if o["api"] == "one":
                 m.remove_node(nm(o["xs"][0]))
             else:
-                m.remove_nodes_from(hold(o, [nm(x) for x in o["xs"]]))
+                m.remove_nodes_from(cont(o, [nm(x) for x in o["xs"]]))
         elif kind == "add_cpds":
             bufs = [] if o.get("buf") else None
             try:
@@ -720,7 +888,7 @@ def apply_bn(o, M, names):
         elif kind == "do":
             # do() takes a single name only when it is a str/int (a tuple would be read as a list of names)
             one = o["api"] == "one" and isinstance(nm(o["xs"][0]), (str, int))
-            arg = nm(o["xs"][0]) if one else [nm(x) for x in o["xs"]]
+            arg = nm(o["xs"][0]) if one else cont(o, [nm(x) for x in o["xs"]])
             r = m.do(arg, inplace=o["inplace"])
             if not o["inplace"]:
                 M.append(r)
@@ -806,6 +974,16 @@ def wire_bn(o, M, names, idx, last=None):
         for c in o["cs"]:
             if "pick" in c and mo is not None and mo[4] and len(mo[4]) == len(M[a].cpds):
                 i = c["pick"] % len(mo[4])
+                sc_i = set([mo[4][i][1][0]] + mo[4][i][1][2])
+                if c.get("own") and not any(set([q[1][0]] + q[1][2]) == sc_i for q in mo[4][:i]):
+                    # the model's very object (identity path of remove_cpds); no earlier CPD has the same scope set, so
+                    # the value-based model operation removes the same element
+                    objs.append(M[a].cpds[i])
+                    vals = M[a].cpds[i].get_values()
+                    v_, vc_, ev_, ec_, _ = mo[4][i][1]
+                    ws.append([v_, vc_, ev_, ec_, [[Fraction(float(vals[r][j])) for r in range(vals.shape[0])]
+                                                   for j in range(vals.shape[1])]])
+                    continue
                 obj = M[a].cpds[i].copy()               # equal by value, not identical
                 if c.get("perturb"):
                     # numpy.allclose(atol=1e-8, rtol=1e-5): a relative change of 1e-10 is "equal", 1e-3 is not
@@ -827,7 +1005,7 @@ def wire_bn(o, M, names, idx, last=None):
         return [7, a]
     if k == "random_cpds":
         m = M[a]
-        live = [idx[repr(x)] for x in m.nodes()]
+        live = [idx[rkey(x)] for x in m.nodes()]
         form = o["form"]
         if form == "int":
             ns = [[x, o["k"]] for x in live]
@@ -851,7 +1029,7 @@ def wire_bn(o, M, names, idx, last=None):
         for x in live:
             sz = d.get(x, 0)
             for p in m.predecessors(names[x]):
-                sz *= d.get(idx[repr(p)], 0)
+                sz *= d.get(idx[rkey(p)], 0)
             need = max(need, sz)
         return [8, a, isdict, ns, draws(need), bool(o["inplace"])]
     raise RuntimeError(k)
@@ -887,7 +1065,8 @@ def oracle_check_model(ms):
         c = first.get(x)
         if c is None or set(c[2]) != set(pred[x]):
             return False
-        if any(abs(sum(col) - 1) > Fraction(1, 100) for col in c[4]):
+        # numpy.allclose(sums, 1, atol=0.01) with its default rtol=1e-5
+        if any(abs(sum(col) - 1) > Fraction(1, 100) + Fraction(1, 100000) for col in c[4]):
             return False
     for x in nodes:
         c = first[x]
@@ -937,8 +1116,8 @@ def observe(m, ms, names, idx, qrng, budget):
         got = m.get_cpds(names[x])
         if (got is None) != (x not in pos) or (got is not None and got is not m.cpds[pos[x]]):
             return {"what": "get_cpds(node)", "node": x, "impl": repr(got), "expected_index": pos.get(x)}
-        if [idx[repr(p)] for p in m.get_parents(names[x])] != pred[x] or \
-                [idx[repr(p)] for p in m.get_children(names[x])] != succ[x]:
+        if [idx[rkey(p)] for p in m.get_parents(names[x])] != pred[x] or \
+                [idx[rkey(p)] for p in m.get_children(names[x])] != succ[x]:
             return {"what": "get_parents/get_children", "node": x}
     absent = [i for i in range(len(names)) if i not in nodes]
     if absent:
@@ -947,16 +1126,16 @@ def observe(m, ms, names, idx, qrng, budget):
             return {"what": "get_cpds(absent node) accepted", "node": absent[0]}
         except ValueError:
             pass
-    if sorted(idx[repr(x)] for x in m.get_leaves()) != sorted(x for x in nodes if not succ[x]) or \
-            sorted(idx[repr(x)] for x in m.get_roots()) != sorted(x for x in nodes if not pred[x]):
+    if sorted(idx[rkey(x)] for x in m.get_leaves()) != sorted(x for x in nodes if not succ[x]) or \
+            sorted(idx[rkey(x)] for x in m.get_roots()) != sorted(x for x in nodes if not pred[x]):
         return {"what": "get_leaves/get_roots"}
     # get_cardinality(): fresh dict (later CPDs of the same variable win); mutating the result changes nothing
     exp = {}
     for c in cpds:
         exp[c[0]] = c[1]
     got = m.get_cardinality()
-    if {idx[repr(k)]: int(v) for k, v in got.items()} != exp:
-        return {"what": "get_cardinality()", "impl": {idx[repr(k)]: int(v) for k, v in got.items()}, "model": exp}
+    if {idx[rkey(k)]: int(v) for k, v in got.items()} != exp:
+        return {"what": "get_cardinality()", "impl": {idx[rkey(k)]: int(v) for k, v in got.items()}, "model": exp}
     got["__c15__"] = 99
     if "__c15__" in m.get_cardinality():
         return {"what": "get_cardinality() result is shared"}
@@ -974,7 +1153,9 @@ def observe(m, ms, names, idx, qrng, budget):
     if got_ok != exp_ok:
         return {"what": "check_model", "impl": got_ok, "model": exp_ok}
     # a query through the inference API when the model is valid and small
-    if exp_ok and nodes and budget[0] > 0:
+    # (only for exactly normalised tables: with column sums merely within 0.01 of 1 the answer depends on which
+    # barren nodes an engine prunes, so there is no single reference value)
+    if exp_ok and nodes and budget[0] > 0 and all(sum(col) == 1 for c in cpds for col in c[4]):
         first = {}
         for c in cpds:
             first.setdefault(c[0], c)
@@ -1048,7 +1229,7 @@ def run_bn_(case, drv):
             if not M:
                 continue
             o["m"] = o["m"] % len(M)
-        o = dict(o)
+        o = materialise(dict(o, _style=case.get("style")), names, idx)
         w = wire_bn(o, M, names, idx, last_state)
         if o["op"] == "new_from":
             wire.extend(w)
@@ -1129,10 +1310,25 @@ def run_bn_(case, drv):
             j = tgt if (o["op"] == "remove_nodes" or o["inplace"]) else len(M) - 1
             now = consistent_cpds(M[j])
             gone = {names[x] for x in o["xs"]} if o["op"] == "remove_nodes" else set()
-            lost = [idx[repr(v)] for v in cons_before[tgt] - gone - now]
+            lost = [idx[rkey(v)] for v in cons_before[tgt] - gone - now]
             if lost:
                 return bad("impl!=spec:cpd-inconsistent-after-" + o["op"], dict(where, variables=lost))
             tags.add("cpd-preservation-checked:%d" % min(3, len(cons_before[tgt] - gone)))
+    # None is not a node: add_node(None) / add_edge(None, x) are rejected by networkx and must change nothing.
+    # (add_node(None, latent=True) is the reported defect "None stays in latents": enabled by NONE_LATENT once repaired)
+    if M:
+        m = M[-1]
+        snap = snap_real(m, idx)
+        lat_before = set(m.latents)
+        for call in ([lambda: m.add_node(None), lambda: m.add_edge(None, names[0]), lambda: m.add_nodes_from([None])]
+                     + ([lambda: m.add_node(None, latent=True)] if NONE_LATENT else [])):
+            try:
+                call()
+                return bad("impl!=spec:none-node-accepted", {"model": len(M) - 1})
+            except ValueError:
+                pass
+            if set(m.latents) != lat_before or not real_equal(snap, snap_real(m, idx)):
+                return bad("impl!=spec:rejected-op-changed-model", {"op": "None as a node", "latents": repr(m.latents)})
     key = common.canon_key(["bn", case["N"], [[k, v] for o in ops for k, v in sorted(o.items()) if not k.startswith("_")]])
     tags.add("len=%d0s" % (len(ops) // 10))
     tags.add("backend=" + case.get("backend", "numpy"))
